@@ -339,7 +339,7 @@ let () =
   let lines = read_lines Sys.argv.(1) in
   let var = if Array.length Sys.argv > 3 then
       (match Sys.argv.(3) with
-       | "head" -> head | "restore_unreported" -> restoreUnreported | "boot_unatomic" -> bootUnatomic
+       | "pre_audit2" -> preAudit2 | "restore_unreported" -> restoreUnreported | "boot_unatomic" -> bootUnatomic
        | "defective" -> defective | "frr_defect" -> frrDefect | _ -> repaired)
     else repaired in
   let impls = if Array.length Sys.argv > 2 && Sys.argv.(2) <> "-" then read_lines Sys.argv.(2) else [] in
